@@ -442,7 +442,12 @@ func (ts *TermStore) Bin(op Op, a, b *Term) *Term {
 	// (zext(x) * c) / c == zext(x) and (zext(x) * c) % c == 0 when the product cannot overflow
 	if (op == OpSDiv || op == OpUDiv || op == OpSRem || op == OpURem) && b.isConst() && b.k > 0 && a.op == OpMul && a.b.isConst() && a.b.k == b.k && a.a.op == OpZExt {
 		xw := a.a.a.w
-		if xw < 63 && b.k < (uint64(1)<<(63-xw)) {
+		// the product zext(x)*c must fit the term's own width (one bit less for the signed operators)
+		lim := w
+		if op == OpSDiv || op == OpSRem {
+			lim = w - 1
+		}
+		if xw < lim && lim-xw < 64 && b.k < (uint64(1)<<(lim-xw)) {
 			if op == OpSDiv || op == OpUDiv {
 				return a.a
 			}
